@@ -11,6 +11,16 @@
 //!      1 = shuffled, top-dimensional elements cut into `nblocks` runs with lower-dimensional blocks
 //!      interleaved); the model declines (`skip large-n`), the oracle is applied in full.
 //! out: `ok <size> nnz <k> h <fnv64 of indptr,indices> | d<data len> | bary <n> used <m>`
+//! op:  `dualc <raw|medit> <threads> <cmode> <cseed> <nnodes> <nblocks> {…}` – the `dual` op with node
+//!      COORDINATES drawn from `(cmode, cseed)` instead of the small default lattice (`CMODE_NAME`:
+//!      huge finite values whose per-element sum overflows f64, values within a few ulps of
+//!      f64::MAX / k, a sweep over every binary exponent, subnormals and signed zeros, distinct
+//!      ordinary values, non-finite values, one huge axis). Same output line as `dual` (the model has
+//!      no coordinates: graph and counts must not depend on them).
+//! op:  `dualhv <threads> <2|3> <shape> <n> <h> <r> <layout> <nb> <cmode> <seed>` – HIGH-VALENCE meshes
+//!      (`HV_NAME`: `n` cells on one edge / face, hub soups, random cells over a handful of nodes, fans,
+//!      a grid with a book attached), regenerated from the parameters; output as for `dualgen`, the
+//!      model declines, the oracle is the literal pairwise definition.
 
 use crate::common::*;
 use std::collections::BTreeSet;
@@ -403,6 +413,8 @@ pub fn generate(ctx: &mut Ctx) {
     }
 
     generate_large(ctx);
+    generate_hv(ctx);
+    generate_coords(ctx);
 }
 
 /// Parameters of a regenerated (large or many-block) mesh.
@@ -597,6 +609,499 @@ fn generate_large(ctx: &mut Ctx) {
     }
 }
 
+// ------------------------------------------------------------------ high-valence meshes
+
+const HV_NAME: [&str; 5] = ["book", "hub-soup", "handful", "fan", "grid+book"];
+
+/// Parameters of a regenerated high-valence mesh (`dualhv`).
+#[derive(Clone, Debug)]
+struct HvP {
+    dim: usize,
+    shape: usize,
+    /// number of cells of the high-valence part
+    n: usize,
+    /// number of hub nodes (shapes 1, 2, 3)
+    h: usize,
+    /// size of the pool of ordinary nodes (0 = every cell gets fresh nodes of its own)
+    r: usize,
+    layout: usize,
+    nb: usize,
+    cmode: usize,
+    seed: u64,
+}
+
+/// The other nodes of a cell: fresh ones, or distinct ones out of the pool `base .. base + r`.
+fn hv_fill(rng: &mut Rng, nn: &mut usize, base: usize, r: usize, k: usize) -> Vec<usize> {
+    if r < k.max(1) {
+        let v = (*nn..*nn + k).collect();
+        *nn += k;
+        v
+    } else {
+        distinct(rng, r, k).into_iter().map(|x| base + x).collect()
+    }
+}
+
+/// Meshes in which MANY cells (more than any fixed "reasonable valence") meet in the same node, edge
+/// or face. d = dimension; the threshold of the dual graph is d shared nodes.
+///  0 book       `n` cells (triangles and quadrangles / tetrahedra and hexahedra) that all contain the
+///               same d nodes (one edge / one face), the hubs sitting at random positions of each
+///               cell; the other nodes fresh or from a pool of `r`; the facet itself and its
+///               lower-dimensional parts are present as elements.
+///  1 hub-soup   `h` hubs; every cell takes d-1 ..= min(h, npe) of them and its other nodes from a pool
+///               of `r` ordinary nodes (or fresh): neighbours through hubs only, through ordinary
+///               nodes only, and through both.
+///  2 handful    every cell is a random subset of a pool of `h` nodes (all nodes are hubs, many cells
+///               coincide, nearly every pair is adjacent).
+///  3 fan        CONFORMING: triangles and quadrangles round one apex (open or closed) / tetrahedra
+///               round one edge (h >= 2) or a cone of tetrahedra over a triangulated strip (one apex):
+///               neighbours also share an ordinary node.
+///  4 grid+book  a structured conforming grid with its lower-dimensional elements, and a book of `n`
+///               cells attached to one of its interior edges / faces (non-manifold, non-conforming:
+///               the pages' other nodes are fresh or nodes of the grid).
+fn hv_soup(rng: &mut Rng, g: &HvP) -> Soup {
+    let d = g.dim;
+    let three_d = d == 3;
+    let mut s = Soup::default();
+    let qc = quad_code(rng);
+    let pick_ty = |rng: &mut Rng, max_npe: usize| -> usize {
+        let ty = if three_d { *rng.pick(&[5usize, 5, 5, 6]) } else { *rng.pick(&[2usize, 2, 2, qc, 7 - qc]) };
+        if NPE[ty] > max_npe {
+            if three_d {
+                5
+            } else {
+                2
+            }
+        } else {
+            ty
+        }
+    };
+    let place = |rng: &mut Rng, hubs: Vec<usize>, others: Vec<usize>| -> Vec<usize> {
+        let mut el = hubs;
+        el.extend(others);
+        rng.shuffle(&mut el);
+        el
+    };
+    match g.shape {
+        0 => {
+            let mut nn = d + g.r;
+            for _ in 0..g.n {
+                let ty = pick_ty(rng, 8);
+                let others = hv_fill(rng, &mut nn, d, g.r, NPE[ty] - d);
+                s.els.push((ty, place(rng, (0..d).collect(), others)));
+            }
+            s.nn = nn;
+            // the facet and its parts as lower-dimensional elements
+            if three_d {
+                s.els.push((2, vec![0, 1, 2]));
+                s.els.push((1, vec![0, 1]));
+                s.els.push((1, vec![1, 2]));
+            } else {
+                s.els.push((1, vec![0, 1]));
+            }
+            s.els.push((0, vec![0]));
+        }
+        1 => {
+            let h = g.h.max(d);
+            let mut nn = h + g.r;
+            for _ in 0..g.n {
+                let ty = pick_ty(rng, 8);
+                let jmax = h.min(NPE[ty]);
+                let j = d - 1 + rng.usize(jmax - (d - 1) + 1);
+                let hubs = distinct(rng, h, j);
+                let others = hv_fill(rng, &mut nn, h, g.r, NPE[ty] - j);
+                s.els.push((ty, place(rng, hubs, others)));
+            }
+            s.nn = nn;
+            s.els.push((1, vec![0, 1]));
+        }
+        2 => {
+            let h = g.h.max(d + 1);
+            for _ in 0..g.n {
+                let ty = pick_ty(rng, h);
+                s.els.push((ty, distinct(rng, h, NPE[ty])));
+            }
+            s.nn = h + rng.usize(3);
+            for _ in 0..rng.usize(4) {
+                s.els.push((1, distinct(rng, h, 2)));
+            }
+        }
+        3 => {
+            let closed = rng.chance(1, 2);
+            if !three_d {
+                // sector i between ring nodes i and i+1 round apex 0
+                let ring = |i: usize| 1 + if closed { i % g.n } else { i };
+                let mut nn = 1 + if closed { g.n } else { g.n + 1 };
+                for i in 0..g.n {
+                    if rng.chance(1, 5) {
+                        s.els.push((qc, vec![0, ring(i), nn, ring(i + 1)]));
+                        nn += 1;
+                    } else {
+                        s.els.push((2, vec![0, ring(i), ring(i + 1)]));
+                    }
+                    if rng.chance(1, 16) {
+                        s.els.push((1, vec![0, ring(i)]));
+                    }
+                }
+                s.nn = nn;
+            } else if g.h >= 2 {
+                // tetrahedra round the edge (0, 1)
+                let ring = |i: usize| 2 + if closed { i % g.n } else { i };
+                for i in 0..g.n {
+                    s.els.push((5, place(rng, vec![0, 1], vec![ring(i), ring(i + 1)])));
+                    if rng.chance(1, 16) {
+                        s.els.push((2, vec![0, 1, ring(i)]));
+                    }
+                }
+                s.nn = 2 + if closed { g.n } else { g.n + 1 };
+                s.els.push((1, vec![0, 1]));
+            } else {
+                // cone over a strip a_0 a_1 … / b_0 b_1 …: two tetrahedra per strip cell, apex 0
+                let m = (g.n + 1) / 2;
+                let a = |i: usize| 1 + 2 * i;
+                let b = |i: usize| 2 + 2 * i;
+                for i in 0..m {
+                    s.els.push((5, vec![0, a(i), a(i + 1), b(i)]));
+                    s.els.push((5, vec![0, a(i + 1), b(i + 1), b(i)]));
+                    if rng.chance(1, 16) {
+                        s.els.push((2, vec![a(i), a(i + 1), b(i)]));
+                    }
+                }
+                s.nn = 3 + 2 * m;
+            }
+            s.els.push((0, vec![0]));
+        }
+        _ => {
+            let (a, b) = (3 + rng.usize(4), 3 + rng.usize(4));
+            let grid = if three_d { grid3d(rng, a.min(4), b.min(4), 2, 4, true) } else { grid2d(rng, a, b, 4, true) };
+            let gn = grid.nn;
+            // an interior facet of the grid: two / three nodes of one of its cells
+            let host: Vec<usize> = grid.els.iter().filter(|e| DIM[e.0] == d).nth(grid.els.len() / 3).map(|e| e.1.clone()).unwrap_or((0..8).collect());
+            let hubs: Vec<usize> = if three_d { vec![host[0], host[1], host[2]] } else { vec![host[0], host[1]] };
+            s = grid;
+            let mut nn = gn;
+            for _ in 0..g.n {
+                let ty = pick_ty(rng, 8);
+                let k = NPE[ty] - d;
+                let others: Vec<usize> = if g.r == 0 {
+                    hv_fill(rng, &mut nn, 0, 0, k)
+                } else {
+                    // nodes of the grid (non-conforming), none of them a hub
+                    let mut v: Vec<usize> = vec![];
+                    while v.len() < k {
+                        let x = rng.usize(gn);
+                        if !hubs.contains(&x) && !v.contains(&x) {
+                            v.push(x);
+                        }
+                    }
+                    v
+                };
+                s.els.push((ty, place(rng, hubs.clone(), others)));
+            }
+            s.nn = nn;
+        }
+    }
+    s
+}
+
+fn hv_mesh(g: &HvP) -> (usize, Vec<Blk>) {
+    let mut rng = Rng::new(g.seed ^ 0x48_56);
+    let s = hv_soup(&mut rng, g);
+    cut_blocks(&mut rng, s, g.layout == 1, g.nb)
+}
+
+fn format_hv(threads: usize, g: &HvP) -> String {
+    format!("dualhv {} {} {} {} {} {} {} {} {} {}", threads, g.dim, g.shape, g.n, g.h, g.r, g.layout, g.nb, g.cmode, g.seed)
+}
+
+fn parse_hv(op: &str) -> Option<(usize, HvP)> {
+    let v: Vec<u64> = op.split_whitespace().skip(1).map(|t| t.parse().ok()).collect::<Option<_>>()?;
+    if !op.starts_with("dualhv ") || v.len() != 10 || v[0] == 0 || v[0] > 64 || (v[1] != 2 && v[1] != 3) {
+        return None;
+    }
+    // n: the graph of a book is complete (n^2 entries); 4 500 cells keep it below 200 MB
+    if v[2] as usize >= HV_NAME.len() || v[3] == 0 || v[3] > 4500 || v[4] > 64 || v[5] > 100_000 || v[8] as usize >= CMODE_NAME.len() {
+        return None;
+    }
+    Some((
+        v[0] as usize,
+        HvP {
+            dim: v[1] as usize,
+            shape: v[2] as usize,
+            n: v[3] as usize,
+            h: v[4] as usize,
+            r: v[5] as usize,
+            layout: v[6] as usize,
+            nb: (v[7] as usize).clamp(1, 2000),
+            cmode: v[8] as usize,
+            seed: v[9],
+        },
+    ))
+}
+
+/// HIGH-VALENCE stream: thousands of cells on one node / edge / face. Valences just below, at and
+/// above the powers of two a candidate search might cap at (256, 1024, 2048, 4096), systematic over
+/// the shapes and both dimensions, then randomised. The oracle is the literal pairwise definition.
+fn generate_hv(ctx: &mut Ctx) {
+    let g = |dim, shape, n, h, r, layout, nb, cmode, seed| HvP { dim, shape, n, h, r, layout, nb, cmode, seed };
+    let mut fixed: Vec<(usize, HvP)> = vec![
+        // books: every pair of cells is adjacent through hub nodes only
+        (2, g(2, 0, 1025, 0, 0, 0, 1, 0, 101)),
+        (3, g(3, 0, 1025, 0, 0, 0, 1, 6, 102)),
+        (16, g(2, 0, 1100, 0, 0, 1, 7, 6, 103)),
+        (1, g(3, 0, 1100, 0, 0, 1, 5, 0, 104)),
+        (4, g(2, 0, 1024, 0, 0, 0, 2, 0, 105)),
+        (2, g(2, 0, 1026, 0, 40, 1, 3, 6, 106)),
+        (3, g(3, 0, 1300, 0, 30, 0, 257, 0, 107)),
+        (2, g(2, 0, 257, 0, 0, 1, 2, 0, 108)),
+        // hub soups and handfuls of nodes
+        (16, g(2, 1, 1500, 3, 50, 1, 4, 6, 111)),
+        (2, g(3, 1, 1500, 4, 60, 0, 3, 0, 112)),
+        (3, g(2, 2, 2100, 5, 0, 1, 2, 0, 113)),
+        (1, g(3, 2, 2100, 7, 0, 0, 1, 6, 114)),
+        (2, g(3, 2, 1700, 9, 0, 1, 6, 0, 115)),
+        // conforming fans: a hub, but neighbours also meet on an ordinary node
+        (3, g(2, 3, 1200, 1, 0, 0, 1, 6, 121)),
+        (16, g(3, 3, 1200, 2, 0, 1, 3, 0, 122)),
+        (2, g(3, 3, 2200, 1, 0, 0, 2, 6, 123)),
+        // a grid with a book attached
+        (3, g(2, 4, 1100, 0, 0, 1, 5, 6, 131)),
+        (2, g(3, 4, 1100, 0, 1, 0, 4, 0, 132)),
+    ];
+    if !ctx.quick() {
+        fixed.extend(vec![
+            (2, g(2, 0, 2047, 0, 0, 0, 1, 0, 141)),
+            (3, g(2, 0, 2049, 0, 0, 1, 3, 6, 142)),
+            (16, g(3, 0, 2050, 0, 0, 0, 2, 0, 143)),
+            (1, g(2, 0, 4097, 0, 0, 0, 1, 0, 144)),
+            (2, g(3, 0, 4100, 0, 100, 1, 9, 6, 145)),
+            (3, g(2, 2, 4400, 6, 0, 0, 1, 0, 146)),
+            (16, g(3, 2, 4200, 12, 0, 1, 300, 0, 147)),
+            (2, g(2, 1, 4300, 2, 500, 1, 5, 6, 148)),
+            (3, g(3, 1, 4300, 5, 0, 0, 2, 0, 149)),
+            (1, g(2, 3, 4400, 1, 0, 1, 600, 6, 150)),
+            (2, g(3, 3, 4400, 2, 0, 0, 1, 0, 151)),
+            (3, g(2, 4, 4200, 0, 1, 1, 2, 0, 152)),
+            (16, g(3, 4, 3000, 0, 0, 0, 255, 6, 153)),
+        ]);
+    }
+    for (threads, p) in fixed {
+        let mut p = p;
+        p.seed ^= ctx.seed.wrapping_mul(0x9E37_79B9);
+        ctx.count(&format!("hv:{}{}d", HV_NAME[p.shape], p.dim));
+        ctx.count(&format!("pool:{}", threads));
+        let op = format_hv(threads, &p);
+        run_op(ctx, &op);
+    }
+    if !ctx.quick() {
+        // one book just above 1024 pages as an EXPLICIT op: compared exactly with the Lean model
+        // (cubic there: about 40 s)
+        let mut p = g(2, 0, 1030, 0, 0, 1, 3, 0, 161);
+        p.seed ^= ctx.seed.wrapping_mul(0x9E37_79B9);
+        let (nn, blocks) = hv_mesh(&p);
+        ctx.count("hv:model-compared");
+        let op = format_op("raw", 4, nn, &blocks);
+        run_op(ctx, &op);
+    }
+    // randomised: shape, dimension, size (valence round a power of two or anywhere), hubs, pools, layout
+    for _ in 0..ctx.budget(10, 150) {
+        let dim = 2 + ctx.rng.usize(2);
+        let shape = ctx.rng.usize(HV_NAME.len());
+        let top = if ctx.quick() { 2300 } else { 3300 };
+        let n = match ctx.rng.usize(4) {
+            0 => (*ctx.rng.pick(&[256usize, 1024, 2048]) + ctx.rng.usize(5)).saturating_sub(2).min(top),
+            1 => 200 + ctx.rng.usize(900),
+            _ => 1025 + ctx.rng.usize(top - 1025),
+        };
+        let h = match shape {
+            1 => dim + ctx.rng.usize(4),
+            2 => dim + 1 + ctx.rng.usize(if dim == 3 { 9 } else { 6 }),
+            _ => 1 + ctx.rng.usize(2),
+        };
+        let r = if ctx.rng.chance(1, 2) { 0 } else { 8 + ctx.rng.usize(200) };
+        let nb = if ctx.rng.chance(1, 8) { 100 + ctx.rng.usize(300) } else { 1 + ctx.rng.usize(8) };
+        let p = HvP {
+            dim,
+            shape,
+            n,
+            h,
+            r,
+            layout: ctx.rng.usize(2),
+            nb,
+            cmode: *ctx.rng.pick(&[0usize, 0, 6, 6, 3, 4]),
+            seed: ctx.rng.next() >> 16,
+        };
+        let threads = *ctx.rng.pick(&[1usize, 2, 3, 4, 16]);
+        ctx.count(&format!("hv:{}{}d", HV_NAME[p.shape], p.dim));
+        ctx.count(&format!("pool:{}", threads));
+        let op = format_hv(threads, &p);
+        run_op(ctx, &op);
+    }
+}
+
+// ------------------------------------------------------------------ coordinates
+
+const CMODE_NAME: [&str; 9] = [
+    "default",
+    "huge-all",
+    "huge-boundary",
+    "huge-some",
+    "scale-sweep",
+    "tiny",
+    "distinct",
+    "nonfinite",
+    "huge-one-axis",
+];
+/// the modes in which every coordinate is finite
+const CMODE_FINITE: [usize; 7] = [1, 2, 3, 4, 5, 6, 8];
+
+/// A finite value in [2^1023, f64::MAX], either sign: two of the same sign sum to infinity.
+fn huge(rng: &mut Rng) -> f64 {
+    let v = f64::from_bits(0x7FE0_0000_0000_0000 | (rng.next() >> 12));
+    if rng.chance(1, 4) {
+        -v
+    } else {
+        v
+    }
+}
+
+/// Node coordinates by mode (a function of `(space, nn, cmode, cseed)` only).
+///  0 default        the small lattice every other stream uses
+///  1 huge-all       every coordinate finite with magnitude in [2^1023, f64::MAX]
+///  2 huge-boundary  every coordinate within two ulps of f64::MAX / k, k in {2, 3, 4, 8}, one sign:
+///                   k equal addends land on either side of the overflow
+///  3 huge-some      a quarter of the coordinates huge, the others ordinary: only some cells overflow
+///  4 scale-sweep    every binary exponent from subnormal to 2^1023, random mantissa and sign
+///  5 tiny           signed zeros, the smallest subnormals, MIN_POSITIVE and its half
+///  6 distinct       ordinary, pairwise distinct on the first axis
+///  7 nonfinite      a quarter of the coordinates inf / -inf / NaN (raw construction only)
+///  8 huge-one-axis  one axis as in huge-some with probability 1/2, the other axes ordinary
+fn coords_mode(space: usize, nn: usize, cmode: usize, cseed: u64) -> Vec<f64> {
+    let base = coords(space, nn);
+    if cmode == 0 {
+        return base;
+    }
+    let mut rng = Rng::new(cseed.wrapping_mul(31).wrapping_add(cmode as u64));
+    let axis = rng.usize(space);
+    let k = *rng.pick(&[2.0f64, 3.0, 4.0, 8.0]);
+    let sign = if rng.chance(1, 2) { -1.0 } else { 1.0 };
+    let mut c = Vec::with_capacity(space * nn);
+    for i in 0..nn {
+        for a in 0..space {
+            let b = base[i * space + a];
+            c.push(match cmode {
+                1 => huge(&mut rng),
+                2 => sign * f64::from_bits((f64::MAX / k).to_bits() + rng.below(5) - 2),
+                3 => {
+                    if rng.chance(1, 4) {
+                        huge(&mut rng)
+                    } else {
+                        b
+                    }
+                }
+                4 => f64::from_bits((rng.below(2047) << 52) | (rng.next() >> 12) | (rng.below(2) << 63)),
+                5 => *rng.pick(&[0.0, -0.0, 5e-324, -5e-324, f64::MIN_POSITIVE, f64::MIN_POSITIVE / 2.0, 1.5e-323, -f64::MIN_POSITIVE]),
+                6 => match a {
+                    0 => i as f64,
+                    1 => ((i * i) % 10_007) as f64 * 0.5,
+                    _ => ((i * 7) % 1_013) as f64 * 0.25,
+                },
+                7 => {
+                    if rng.chance(1, 4) {
+                        *rng.pick(&[f64::INFINITY, f64::NEG_INFINITY, f64::NAN])
+                    } else {
+                        b
+                    }
+                }
+                _ => {
+                    if a == axis && rng.chance(1, 2) {
+                        huge(&mut rng)
+                    } else {
+                        b
+                    }
+                }
+            });
+        }
+    }
+    c
+}
+
+fn format_op_c(mode: &str, threads: usize, cmode: usize, cseed: u64, nn: usize, blocks: &[Blk]) -> String {
+    let plain = format_op(mode, threads, nn, blocks);
+    let mut it = plain.splitn(4, ' ');
+    let (_, m, t, rest) = (it.next(), it.next().unwrap(), it.next().unwrap(), it.next().unwrap_or(""));
+    format!("dualc {} {} {} {} {}", m, t, cmode, cseed, rest)
+}
+
+/// COORDINATE stream: the counts (cells of the graph, cell centres, used elements) and the graph do
+/// not depend on where the nodes are. Every coordinate mode on every cell type (three cells in a
+/// chain with lower-dimensional elements around them), then the generators of the main stream with a
+/// random mode.
+fn generate_coords(ctx: &mut Ctx) {
+    // --- systematic: cell type x coordinate mode x 3 seeds
+    for ty in [2usize, 3, 4, 5, 6] {
+        let k = NPE[ty];
+        let d = DIM[ty];
+        for cmode in 1..CMODE_NAME.len() {
+            for rep in 0..3u64 {
+                // cell j uses nodes j*(k-d) .. j*(k-d)+k: consecutive cells share d nodes
+                let step = k - d;
+                let mut nodes = vec![];
+                for j in 0..3 {
+                    nodes.extend(j * step..j * step + k);
+                }
+                let nn = 2 * step + k + 1;
+                let mut blocks = vec![Blk { ty: 1, refs: 2, nodes: vec![0, 1, nn - 1, 0] }];
+                blocks.push(Blk { ty, refs: 3, nodes });
+                if d == 3 {
+                    blocks.insert(0, Blk { ty: 2, refs: 1, nodes: vec![0, 1, 2] });
+                }
+                if rep == 2 {
+                    blocks.reverse();
+                }
+                let mode = if cmode != 7 && rep == 1 { "medit" } else { "raw" };
+                let threads = POOLS[(cmode + rep as usize) % 3];
+                let cseed = ctx.rng.next() >> 20;
+                ctx.count("shape:coords-systematic");
+                let op = format_op_c(mode, threads, cmode, cseed, nn, &blocks);
+                run_op(ctx, &op);
+            }
+        }
+    }
+    // --- randomised: meshes of the main stream under a random coordinate mode
+    for _ in 0..ctx.budget(150, 4000) {
+        let (shape, s) = match ctx.rng.usize(4) {
+            0 => {
+                let (nx, ny) = (1 + ctx.rng.usize(5), 1 + ctx.rng.usize(5));
+                let p = *ctx.rng.pick(&[0u64, 3, 5, 8]);
+                ("coords-grid2d", grid2d(&mut ctx.rng, nx, ny, p, true))
+            }
+            1 => {
+                let (nx, ny, nz) = (1 + ctx.rng.usize(3), 1 + ctx.rng.usize(3), 1 + ctx.rng.usize(2));
+                let p = *ctx.rng.pick(&[0u64, 2, 4, 8]);
+                ("coords-grid3d", grid3d(&mut ctx.rng, nx, ny, nz, p, true))
+            }
+            _ => {
+                let three_d = ctx.rng.chance(1, 2);
+                let nn = if three_d { 8 + ctx.rng.usize(12) } else { 4 + ctx.rng.usize(10) };
+                let ne = 1 + ctx.rng.usize(14);
+                let lower = ctx.rng.usize(6);
+                (if three_d { "coords-random3d" } else { "coords-random2d" }, random_soup(&mut ctx.rng, three_d, nn, ne, lower))
+            }
+        };
+        let (nn, blocks) = to_blocks(&mut ctx.rng, s, true);
+        let has_vertex = blocks.iter().any(|b| b.ty == 0);
+        let cmode = if ctx.rng.chance(1, 8) { 7 } else { *ctx.rng.pick(&CMODE_FINITE) };
+        let mode = if !has_vertex && cmode != 7 && ctx.rng.chance(1, 4) { "medit" } else { "raw" };
+        let threads = *ctx.rng.pick(&POOLS);
+        let cseed = ctx.rng.next() >> 20;
+        ctx.count(&format!("shape:{}", shape));
+        ctx.count(&format!("mode:{}", mode));
+        ctx.count(&format!("pool:{}", threads));
+        let op = format_op_c(mode, threads, cmode, cseed, nn, &blocks);
+        run_op(ctx, &op);
+    }
+}
+
 // ------------------------------------------------------------------ protocol
 
 fn format_op(mode: &str, threads: usize, nn: usize, blocks: &[Blk]) -> String {
@@ -664,7 +1169,7 @@ fn coords(space: usize, nn: usize) -> Vec<f64> {
 }
 
 /// Build the mesh the op describes. `Err` = the op cannot be built this way.
-fn build_mesh(medit: bool, space: usize, nn: usize, blocks: &[Blk]) -> Result<mesh_io::Mesh, String> {
+fn build_mesh(medit: bool, space: usize, nn: usize, blocks: &[Blk], c: Vec<f64>) -> Result<mesh_io::Mesh, String> {
     let wf = blocks.iter().all(|b| b.refs == b.count());
     if !medit {
         if !wf {
@@ -674,12 +1179,11 @@ fn build_mesh(medit: bool, space: usize, nn: usize, blocks: &[Blk]) -> Result<me
             .iter()
             .map(|b| (el_type(b.ty), b.nodes.clone(), (0..b.refs as isize).collect::<Vec<_>>()))
             .collect();
-        return Ok(mesh_io::Mesh::from_raw_parts(space, coords(space, nn), vec![0; nn], topo));
+        return Ok(mesh_io::Mesh::from_raw_parts(space, c, vec![0; nn], topo));
     }
     if blocks.iter().any(|b| b.ty == 0 || b.refs > b.count()) {
         return Err("not expressible in MEDIT ASCII".into());
     }
-    let c = coords(space, nn);
     let mut t = format!("MeshVersionFormatted 2\nDimension {}\n\nVertices\n{}\n", space, nn);
     for i in 0..nn {
         for k in 0..space {
@@ -797,6 +1301,7 @@ fn check(
     o: &Obs,
     bary: Option<usize>,
     used: usize,
+    brute: bool,
 ) -> (Option<(&'static str, String)>, Option<(&'static str, String)>, bool, usize) {
     let (d, cells, degenerate) = match definition(blocks) {
         None => (usize::MAX, vec![], false),
@@ -839,6 +1344,10 @@ fn check(
     }
     if structural.is_none() && o.rows == n {
         let fast = if d >= 1 && d != usize::MAX { Some(reference_rows_fast(d, &cells)) } else { None };
+        // high-valence stream: the literal pairwise definition on every mesh, whatever its size
+        // (node lists as sorted vectors; the node -> cells index plays no part)
+        let sorted: Vec<Vec<usize>> =
+            if brute && n > 400 { cells.iter().map(|c| c.iter().cloned().collect()).collect() } else { vec![] };
         for i in 0..n {
             for &j in row(i) {
                 if !row(j).contains(&i) {
@@ -855,12 +1364,28 @@ fn check(
                     if slow != *want {
                         fail(&mut structural, "oracle-internal", format!("row {}: {:?} vs {:?}", i, slow, want));
                     }
+                } else if brute {
+                    let slow: Vec<usize> =
+                        (0..n).filter(|&j| j != i && shared_sorted(&sorted[i], &sorted[j]) >= d).collect();
+                    if slow != *want {
+                        fail(&mut structural, "oracle-internal", format!("row {}: {} vs {} entries", i, slow.len(), want.len()));
+                    }
                 }
                 if want.as_slice() != row(i) {
                     fail(
                         &mut semantic,
                         "adjacency-mismatch",
-                        format!("row {} = {:?}, definition gives {:?}", i, row(i), want),
+                        if want.len() + row(i).len() <= 64 {
+                            format!("row {} = {:?}, definition gives {:?}", i, row(i), want)
+                        } else {
+                            format!(
+                                "row {} has {} entries, the definition gives {} (first difference at position {})",
+                                i,
+                                row(i).len(),
+                                want.len(),
+                                want.iter().zip(row(i)).take_while(|(a, b)| a == b).count()
+                            )
+                        },
                     );
                 }
             }
@@ -875,6 +1400,70 @@ fn check(
         fail(&mut structural, "used-count-differs", format!("used_element_count {} but {} graph vertices", used, o.rows));
     }
     (structural, semantic, degenerate, d)
+}
+
+/// Number of common entries of two strictly increasing lists.
+fn shared_sorted(a: &[usize], b: &[usize]) -> usize {
+    let (mut i, mut j, mut k) = (0, 0, 0);
+    while i < a.len() && j < b.len() {
+        if a[i] < b[j] {
+            i += 1;
+        } else if a[i] > b[j] {
+            j += 1;
+        } else {
+            k += 1;
+            i += 1;
+            j += 1;
+        }
+    }
+    k
+}
+
+/// Centre `i` must be a centre of cell `i`: on every axis it lies in the closed interval spanned by
+/// the cell's node coordinates (up to rounding). A non-finite centre is accepted exactly when the sum
+/// of the cell's coordinates can overflow (sum of magnitudes not below f64::MAX / 2) or a coordinate
+/// of the cell is not finite. Returns (first violation, cells whose sum overflowed, cells with a
+/// non-finite coordinate).
+fn centres_aligned(
+    mesh: &mesh_io::Mesh,
+    space: usize,
+    cells: &[BTreeSet<usize>],
+    cs: &[Vec<f64>],
+) -> (Option<String>, usize, usize) {
+    let (mut bad, mut overflowed, mut nonfinite_in) = (None, 0usize, 0usize);
+    for (i, (cell, c)) in cells.iter().zip(cs).enumerate() {
+        let (mut any_over, mut any_nf) = (false, false);
+        for k in 0..space {
+            let vals: Vec<f64> = cell.iter().map(|&x| mesh.node(x)[k]).collect();
+            if vals.iter().any(|v| !v.is_finite()) {
+                any_nf = true;
+                continue;
+            }
+            let lo = vals.iter().cloned().fold(f64::INFINITY, f64::min);
+            let hi = vals.iter().cloned().fold(f64::NEG_INFINITY, f64::max);
+            // magnitudes halved before they are added: this sum cannot overflow itself
+            let half_abs: f64 = vals.iter().map(|v| v.abs() / 2.0).sum();
+            if !c[k].is_finite() {
+                if half_abs < f64::MAX / 4.0 {
+                    bad.get_or_insert_with(|| {
+                        format!("centre {} axis {}: {:e} although the cell's coordinates {:?} cannot overflow", i, k, c[k], vals)
+                    });
+                } else {
+                    any_over = true;
+                }
+                continue;
+            }
+            let tol = 1e-12 * lo.abs().max(hi.abs()) + 1e-320;
+            if c[k] < lo - tol || c[k] > hi + tol {
+                bad.get_or_insert_with(|| {
+                    format!("centre {} axis {}: {:e} outside [{:e}, {:e}] spanned by cell {}'s nodes", i, k, c[k], lo, hi, i)
+                });
+            }
+        }
+        overflowed += any_over as usize;
+        nonfinite_in += any_nf as usize;
+    }
+    (bad, overflowed, nonfinite_in)
 }
 
 fn fnv(h: &mut u64, xs: &[usize]) {
@@ -897,7 +1486,7 @@ pub fn run_op(ctx: &mut Ctx, op: &str) {
         };
         let (nn, blocks) = gen_mesh(&g);
         let space = if g.kind == 3 { 3 } else { 2 };
-        let mesh = match catch(|| build_mesh(false, space, nn, &blocks)) {
+        let mesh = match catch(|| build_mesh(false, space, nn, &blocks, coords(space, nn))) {
             Caught::Ok(Ok(m)) => m,
             _ => {
                 ctx.record(op.to_string(), "unbuildable".into(), false);
@@ -905,16 +1494,65 @@ pub fn run_op(ctx: &mut Ctx, op: &str) {
             }
         };
         ctx.count(&format!("large:blocks:{}", match blocks.len() { 0..=9 => "<10", 10..=255 => "10-255", 256..=999 => "256-999", _ => ">=1000" }));
-        execute(ctx, op, &mesh, nn, blocks, threads, space, true);
+        execute(ctx, op, &mesh, nn, blocks, threads, space, true, false);
         return;
     }
-    let Some((medit, threads, nn, blocks)) = parse_op(op) else {
+    if op.starts_with("dualhv") {
+        let Some((threads, g)) = parse_hv(op) else {
+            ctx.record(op.to_string(), "bad-op".into(), false);
+            return;
+        };
+        let (nn, blocks) = hv_mesh(&g);
+        let mesh = match catch(|| build_mesh(false, g.dim, nn, &blocks, coords_mode(g.dim, nn, g.cmode, g.seed))) {
+            Caught::Ok(Ok(m)) => m,
+            _ => {
+                ctx.record(op.to_string(), "unbuildable".into(), false);
+                return;
+            }
+        };
+        // the class this stream is about: how many cells hang on the busiest node
+        let mut val = vec![0usize; nn];
+        if let Some((_, cells, _)) = definition(&blocks) {
+            for c in &cells {
+                for &x in c {
+                    val[x] += 1;
+                }
+            }
+        }
+        let vmax = val.iter().cloned().max().unwrap_or(0);
+        ctx.count(&format!("hv:max-valence:{}", match vmax { 0..=255 => "<256", 256..=1023 => "256-1023", 1024 => "1024", 1025..=2048 => "1025-2048", _ => ">2048" }));
+        ctx.count(&format!("hv:nodes-above-1024:{}", match val.iter().filter(|&&v| v > 1024).count() { 0 => "0", 1 => "1", 2 => "2", 3..=8 => "3-8", _ => ">8" }));
+        ctx.count(&format!("coords:{}", CMODE_NAME[g.cmode]));
+        execute(ctx, op, &mesh, nn, blocks, threads, g.dim, true, true);
+        return;
+    }
+    // `dualc`: the `dual` op with a coordinate mode and a coordinate seed after the pool size
+    let (cmode, cseed, plain) = if op.starts_with("dualc ") {
+        let t: Vec<&str> = op.split_whitespace().collect();
+        let spec = if t.len() >= 5 { t[3].parse::<usize>().ok().zip(t[4].parse::<u64>().ok()) } else { None };
+        match spec {
+            Some((m, sd)) if m < CMODE_NAME.len() && (m != 7 || t[1] == "raw") => {
+                (m, sd, format!("dual {} {} {}", t[1], t[2], t[5..].join(" ")))
+            }
+            _ => {
+                ctx.record(op.to_string(), "bad-op".into(), false);
+                return;
+            }
+        }
+    } else {
+        (0, 0, op.to_string())
+    };
+    let with_coords = op.starts_with("dualc ");
+    let Some((medit, threads, nn, blocks)) = parse_op(&plain) else {
         ctx.record(op.to_string(), "bad-op".into(), false);
         return;
     };
     let space = if blocks.iter().any(|b| DIM[b.ty] == 3) { 3 } else { 2 };
     let mut blocks = blocks;
-    let mesh = match catch(|| build_mesh(medit, space, nn, &blocks)) {
+    if with_coords {
+        ctx.count(&format!("coords:{}", CMODE_NAME[cmode]));
+    }
+    let mesh = match catch(|| build_mesh(medit, space, nn, &blocks, coords_mode(space, nn, cmode, cseed))) {
         Caught::Ok(Ok(m)) => m,
         Caught::Ok(Err(e)) => {
             ctx.count("unbuildable");
@@ -943,9 +1581,12 @@ pub fn run_op(ctx: &mut Ctx, op: &str) {
         if changed {
             ctx.count("refs-filled-by-reader");
             op = format_op(if medit { "medit" } else { "raw" }, threads, nn, &blocks);
+            if with_coords {
+                op = format_op_c(if medit { "medit" } else { "raw" }, threads, cmode, cseed, nn, &blocks);
+            }
         }
     }
-    execute(ctx, op.as_str(), &mesh, nn, blocks, threads, space, false);
+    execute(ctx, op.as_str(), &mesh, nn, blocks, threads, space, false, false);
 }
 
 /// Run `dual` (and the two counts) on the built mesh, record the canonical line (`compact`: a
@@ -960,6 +1601,7 @@ fn execute(
     threads: usize,
     space: usize,
     compact: bool,
+    brute: bool,
 ) {
     let mesh = mesh;
     let wf = blocks.iter().all(|b| b.refs == b.count());
@@ -1019,16 +1661,17 @@ fn execute(
             pool_dep = Some("the same pool gives different arrays on a second call".into());
         }
     }
-    let bary = match catch(|| {
+    let centres: Option<Vec<Vec<f64>>> = match catch(|| {
         if space == 3 {
-            coupe_tools::barycentres::<3>(mesh).len()
+            coupe_tools::barycentres::<3>(mesh).iter().map(|p| (0..3).map(|k| p[k]).collect()).collect()
         } else {
-            coupe_tools::barycentres::<2>(mesh).len()
+            coupe_tools::barycentres::<2>(mesh).iter().map(|p| (0..2).map(|k| p[k]).collect()).collect()
         }
     }) {
-        Caught::Ok(n) => Some(n),
+        Caught::Ok(v) => Some(v),
         _ => None,
     };
+    let bary = centres.as_ref().map(|v| v.len());
     let used = coupe_tools::used_element_count(mesh);
     let bary_s = bary.map(|n| n.to_string()).unwrap_or_else(|| "panic".into());
     let out = if compact {
@@ -1047,7 +1690,22 @@ fn execute(
             used
         )
     };
-    let (structural, semantic, degenerate, d) = check(&blocks, &o, bary, used);
+    let (mut structural, semantic, degenerate, d) = check(&blocks, &o, bary, used, brute);
+    // the i-th centre is a centre of the i-th cell (points line up with graph vertices)
+    if let (Some(cs), Some((_, cells, _))) = (&centres, definition(&blocks)) {
+        if cs.len() == cells.len() && blocks.iter().all(|b| b.nodes.iter().all(|&x| x < nn)) {
+            let (bad, overflowed, nonfinite_in) = centres_aligned(mesh, space, &cells, cs);
+            if overflowed > 0 {
+                ctx.count("centres:some-sum-overflows-f64");
+            }
+            if nonfinite_in > 0 {
+                ctx.count("centres:cell-with-nonfinite-coordinate");
+            }
+            if structural.is_none() {
+                structural = bad.map(|w| ("centre-not-in-cell", w));
+            }
+        }
+    }
     if d == 1 {
         ctx.count(if used != o.rows { "edges-only:used-count-differs" } else { "edges-only:counts-equal" });
     }
